@@ -71,13 +71,14 @@ type Finding struct {
 }
 
 type propMeta struct {
-	Level       string
-	Rule        string
-	Assumptions []string
-	QuickS      float64 // internal deadline for exploration, seconds
-	ThoroughS   float64
-	NeedBin     bool
-	Shards      int
+	Level            string
+	Rule             string
+	Assumptions      []string
+	QuickS           float64 // internal deadline for exploration, seconds
+	ThoroughS        float64
+	NeedBin          bool
+	Shards           int
+	DeathIsViolation bool
 }
 
 func die(code int, format string, a ...interface{}) {
@@ -264,11 +265,32 @@ func main() {
 		}(i)
 	}
 	wg.Wait()
+	var deaths []Violation
 	for i := range frags {
 		if frags[i] == nil {
+			// a worker that died of a fatal runtime error while a journaled case was running: for
+			// properties about crashes that is a finding, not a harness fault
+			jb, jerr := os.ReadFile(filepath.Join(bdir, fmt.Sprintf("w%d", i), "journal.json"))
+			var jv Violation
+			if meta.DeathIsViolation && !strings.Contains(errs[i], "HARNESS-") && jerr == nil && json.Unmarshal(jb, &jv) == nil && replayFile == "" {
+				jv.Sig += "|process-died"
+				jv.Detail += fmt.Sprintf("\nthe process died (exit %d):\n%s", codes[i], tail(errs[i], 1200))
+				deaths = append(deaths, jv)
+				frags[i] = &Fragment{Prop: id, Shard: i, ViolCount: map[string]int64{}, Notes: map[string]int64{"workers_died": 1}, TimedOut: true}
+				continue
+			}
+			if replayFile != "" && meta.DeathIsViolation && !strings.Contains(errs[i], "HARNESS-") {
+				fmt.Printf("replayed 1 execution of %s: the process died (exit %d)\n%s\n", id, codes[i], tail(errs[i], 1500))
+				cleanup()
+				os.Exit(1)
+			}
 			cleanup()
 			die(2, "HARNESS-ERROR: worker %d of %s failed (exit %d):\n%s", i, id, codes[i], errs[i])
 		}
+	}
+	for _, dv := range deaths {
+		frags[0].ViolCount[dv.Sig]++
+		frags[0].Violations = append(frags[0].Violations, dv)
 	}
 
 	// merge
